@@ -401,3 +401,260 @@ Proof.
         -- intro q. rewrite look_put_file. reflexivity.
       * left. repeat split; intros; discriminate.
 Qed.
+
+(* ------------------------------------------------------------------ the invariant of a live tracker *)
+Definition Inv (T : path) (s : state) : Prop :=
+  exists t, s_tr s = Some t /\ t_tmp t = Some T /\ flat T (s_fs s) /\
+            LocInv T (s_fs s) (t_loc t) /\ OutInv (s_fs s) (t_loc t) (t_out t).
+
+Lemma step_keeps_inv : forall T s o s' x,
+  Inv T s -> mid_op o = true -> step s o = (s', x) -> Inv T s'.
+Proof.
+  intros T s o s' x [t [Ht [HT [HF [HL HO]]]]] Hm Hs.
+  destruct (step_some s t T o s' x Ht HT (proj1 HF) Hm Hs) as [t' [Ht' [HT' Hc]]].
+  exists t'. split; [assumption|]. split; [assumption|].
+  destruct Hc as [[E1 [E2 _]] | [[p [c [_ [E2 [_ [ND [PD E]]]]]]] | [p [io [n [_ [_ [Ec [Ea [Ne [E [EL [_ EO]]]]]]]]]]]]].
+  - rewrite E1. subst t'. auto.
+  - subst t'. assert (P : putrel (s_fs s) (s_fs s') p) by (split; [assumption|]; split; [assumption|]; eauto).
+    split; [eapply putrel_flat; eauto|]. split; [eapply putrel_loc; eauto | eapply putrel_out; eauto].
+  - assert (P : putrel (s_fs s) (s_fs s') (T ++ [n])).
+    { split; [congruence|]. split; [rewrite parent_child; apply HF|]. eauto. }
+    split; [eapply putrel_flat; eauto|].
+    assert (HL' : LocInv T (s_fs s') (t_loc t')).
+    { rewrite EL. intros k l Hk. rewrite dget_dset in Hk. destruct (path_eqb p k).
+      - inversion Hk; subst l. split; [apply child_of_spec; eauto|].
+        rewrite E, path_eqb_refl. eauto.
+      - eapply putrel_loc; eauto. }
+    split; [assumption|].
+    assert (HO' : OutInv (s_fs s') (t_loc t') (t_out t)).
+    { intros dst Hi. destruct (putrel_out _ _ _ _ _ P HO dst Hi) as [[l A] B]. split; [|assumption].
+      rewrite EL, dget_dset. destruct (path_eqb p dst); eauto. }
+    rewrite EO. destruct (negb io && n_is_absent (look (s_fs s) p)) eqn:Eb; [|assumption].
+    apply andb_true_iff in Eb. destruct Eb as [Eio Eab]. apply negb_true_iff in Eio.
+    apply n_is_absent_true in Eab. subst io.
+    intros dst Hi. apply in_app_or in Hi. destruct Hi as [Hi|[Hi|[]]]; [apply HO'; assumption|]. subst dst.
+    split; [rewrite EL, dget_dset, path_eqb_refl; eauto|].
+    unfold add_check in Ec. rewrite Eab in Ec. simpl in Ec.
+    destruct (n_is_dir (look (s_fs s) (parent p))) eqn:Ed; [|discriminate]. apply n_is_dir_true in Ed.
+    split.
+    + rewrite E, eqb_if by assumption. congruence.
+    + apply (putrel_dir _ _ _ P). assumption.
+Qed.
+
+(* induction over the calls of one life *)
+Lemma run_ind_u : forall (R : state -> Prop),
+  (forall s o s' x, R s -> mid_op o = true -> step s o = (s', x) -> R s') ->
+  forall mid s, forallb mid_op mid = true -> R s -> R (fst (run s mid)).
+Proof.
+  intros R HR. induction mid as [|o r IH]; intros s Hm H0; [assumption|].
+  simpl in Hm. apply andb_true_iff in Hm. destruct Hm as [Hm1 Hm2].
+  rewrite fst_run_cons. apply IH; [assumption|].
+  destruct (step s o) as [s1 x] eqn:E. simpl. eapply HR; eauto.
+Qed.
+
+Lemma run_ind_w : forall (R : state -> list path -> Prop),
+  (forall s H o s' x, R s H -> mid_op o = true -> step s o = (s', x) ->
+      (forall q c, o = WriteTo q c -> In q H) ->
+      R s' (match x with OLoc l => l :: H | _ => H end)) ->
+  forall mid s H, forallb mid_op mid = true -> writes_ok s H mid = true -> R s H ->
+  exists H', R (fst (run s mid)) H'.
+Proof.
+  intros R HR. induction mid as [|o r IH]; intros s H Hm Hw H0; [exists H; assumption|].
+  simpl in Hm. apply andb_true_iff in Hm. destruct Hm as [Hm1 Hm2].
+  rewrite fst_run_cons. simpl in Hw. destruct (step s o) as [s1 x] eqn:E. simpl.
+  apply andb_true_iff in Hw. destruct Hw as [Hw1 Hw2].
+  eapply IH; [assumption | exact Hw2 |].
+  eapply HR; eauto. intros q c Eo. subst o. apply mem_In. assumption.
+Qed.
+
+Lemma run_keeps_inv : forall T mid s, forallb mid_op mid = true -> Inv T s -> Inv T (fst (run s mid)).
+Proof. intros T. apply run_ind_u. intros. eapply step_keeps_inv; eauto. Qed.
+
+(* ------------------------------------------------------------------ FileTracker(tmp_dir) and del *)
+Lemma create_some : forall f0 d n0,
+  look f0 d = Dir -> look f0 (d ++ [n0]) = Absent ->
+  step (start f0) (Create (Some d) n0) =
+  ({| s_fs := put_dir (d ++ [n0]) f0; s_tr := Some (new_tracker (Some (d ++ [n0]))) |}, OOk).
+Proof. intros f0 d n0 H1 H2. simpl. unfold create. rewrite H1, H2. reflexivity. Qed.
+
+Lemma create_inv : forall f0 d n0, wf f0 -> look f0 (d ++ [n0]) = Absent ->
+  Inv (d ++ [n0]) {| s_fs := put_dir (d ++ [n0]) f0; s_tr := Some (new_tracker (Some (d ++ [n0]))) |}.
+Proof.
+  intros f0 d n0 W A. eexists. split; [reflexivity|]. split; [reflexivity|]. simpl. split; [|split].
+  - split; [rewrite look_put_dir, path_eqb_refl; reflexivity|].
+    intros q U. left. rewrite look_put_dir. rewrite eqb_if by (intro; subst; eapply under_neq; eauto).
+    eapply wf_under_absent; eauto. apply under_is_prefix. assumption.
+  - intros k l H. discriminate.
+  - intros dst [].
+Qed.
+
+Lemma del_spec : forall T s, Inv T s ->
+  exists t g h, s_tr s = Some t /\
+    copy_out (t_loc t) (t_out t) (s_fs s) = (g, 0) /\
+    step s Del = ({| s_fs := h; s_tr := None |}, OOk) /\
+    (forall q, look h q = if is_prefix T q then Absent else look g q) /\
+    (forall q, ~ In q (t_out t) -> look g q = look (s_fs s) q) /\
+    (forall q, look (s_fs s) q <> Absent -> look g q <> Absent) /\
+    ((forall d, In d (t_out t) -> is_prefix T d = false) ->
+     forall dst src, In dst (t_out t) -> dget (t_loc t) dst = Some src -> look g dst = look (s_fs s) src).
+Proof.
+  intros T s [t [Ht [HT [HF [HL HO]]]]].
+  destruct (copy_out_ok T (t_loc t) (t_out t) (s_fs s) HF HL HO) as [g [G1 [G2 [_ [G4 [G5 G6]]]]]].
+  assert (Hlen : exists k, length g = S k).
+  { destruct g as [|e g]; [|simpl; eauto]. destruct G2 as [G2 _]. discriminate. }
+  destruct Hlen as [k Hk].
+  destruct (clean_up_flat k T g G2) as [h [H1 H2]].
+  exists t, g, h. split; [assumption|]. split; [assumption|]. split.
+  - unfold step. rewrite Ht. unfold del. rewrite G1. change (negb (0 =? 0)) with false. cbv iota.
+    rewrite HT, Hk, H1. reflexivity.
+  - auto.
+Qed.
+
+(* induction with a side condition on every call *)
+Lemma run_ind_p : forall (P : op -> bool) (R : state -> Prop),
+  (forall s o s' x, R s -> P o = true -> step s o = (s', x) -> R s') ->
+  forall mid s, forallb P mid = true -> R s -> R (fst (run s mid)).
+Proof.
+  intros P R HR. induction mid as [|o r IH]; intros s Hm H0; [assumption|].
+  simpl in Hm. apply andb_true_iff in Hm. destruct Hm as [Hm1 Hm2].
+  rewrite fst_run_cons. apply IH; [assumption|].
+  destruct (step s o) as [s1 x] eqn:E. simpl. eapply HR; eauto.
+Qed.
+
+Lemma life_alive : forall f0 tmp n0 mid, life f0 tmp n0 mid = fst (step (alive f0 tmp n0 mid) Del).
+Proof.
+  intros. unfold life, alive. rewrite app_comm_cons, fst_run_app.
+  rewrite (fst_run_cons _ Del []). reflexivity.
+Qed.
+
+Lemma alive_some : forall f0 d n0 mid, look f0 d = Dir -> look f0 (d ++ [n0]) = Absent ->
+  alive f0 (Some d) n0 mid =
+  fst (run {| s_fs := put_dir (d ++ [n0]) f0; s_tr := Some (new_tracker (Some (d ++ [n0]))) |} mid).
+Proof. intros. unfold alive. rewrite fst_run_cons, create_some by assumption. reflexivity. Qed.
+
+Lemma alive_inv : forall f0 d n0 mid, wf f0 -> look f0 d = Dir -> look f0 (d ++ [n0]) = Absent ->
+  forallb mid_op mid = true -> Inv (d ++ [n0]) (alive f0 (Some d) n0 mid).
+Proof.
+  intros. rewrite alive_some by assumption. apply run_keeps_inv; [assumption|]. apply create_inv; assumption.
+Qed.
+
+Definition outs_of (s : state) : list path := match s_tr s with Some t => t_out t | None => [] end.
+
+(* what is copied out at del was requested by add_file(.., input_only=False) *)
+Lemma run_out_sub : forall T mid s, forallb mid_op mid = true -> Inv T s ->
+  forall dst, In dst (outs_of (fst (run s mid))) -> In dst (outs_of s) \/ In dst (requested mid).
+Proof.
+  intros T. induction mid as [|o r IH]; intros s Hm HI dst Hd; [left; assumption|].
+  simpl in Hm. apply andb_true_iff in Hm. destruct Hm as [Hm1 Hm2].
+  rewrite fst_run_cons in Hd. destruct (step s o) as [s1 x] eqn:E. simpl in Hd.
+  assert (HI1 := step_keeps_inv T s o s1 x HI Hm1 E).
+  destruct (IH s1 Hm2 HI1 dst Hd) as [A|A].
+  - destruct HI as [t [Ht [HT [HF _]]]].
+    destruct (step_some s t T o s1 x Ht HT (proj1 HF) Hm1 E) as [t' [Ht' [HT' Hc]]].
+    unfold outs_of in A |- *. rewrite Ht' in A. rewrite Ht.
+    destruct Hc as [[_ [E2 _]] | [[p [c [_ [E2 _]]]] | [p [io [n [Eo [_ [_ [_ [_ [_ [_ [_ EO]]]]]]]]]]]]].
+    + subst t'. left. assumption.
+    + subst t'. left. assumption.
+    + rewrite EO in A. destruct (negb io && n_is_absent (look (s_fs s) p)) eqn:Eb; [|left; assumption].
+      apply in_app_or in A. destruct A as [A|[A|[]]]; [left; assumption|]. subst dst.
+      right. subst o. apply andb_true_iff in Eb. destruct Eb as [Eb _]. apply negb_true_iff in Eb. subst io.
+      simpl. left. reflexivity.
+  - right. simpl. apply in_or_app. right. assumption.
+Qed.
+
+(* ------------------------------------------------------------------ the environment keeps to handed-out locations *)
+Definition Rw (T : path) (s0 s : state) (H : list path) : Prop :=
+  Inv T s /\
+  (forall l, In l H -> child_of T l = true /\ exists c, look (s_fs s) l = File c) /\
+  (forall q, is_prefix T q = false -> look (s_fs s) q = look (s_fs s0) q) /\
+  (forall dst, In dst (outs_of s) -> is_prefix T dst = false -> look (s_fs s0) dst = Absent).
+
+Lemma child_prefix : forall T l, child_of T l = true -> is_prefix T l = true.
+Proof. intros. apply under_is_prefix, child_under. assumption. Qed.
+
+Lemma step_keeps_Rw : forall T s0 s H o s' x,
+  Rw T s0 s H -> mid_op o = true -> step s o = (s', x) -> (forall q c, o = WriteTo q c -> In q H) ->
+  Rw T s0 s' (match x with OLoc l => l :: H | _ => H end).
+Proof.
+  intros T s0 s H o s' x [HI [HH [HFr HOa]]] Hm Hs Hw.
+  assert (HI' := step_keeps_inv T s o s' x HI Hm Hs).
+  split; [assumption|].
+  destruct HI as [t [Ht [HT [HF [HL HO]]]]].
+  destruct (step_some s t T o s' x Ht HT (proj1 HF) Hm Hs) as [t' [Ht' [HT' Hc]]].
+  destruct Hc as [[E1 [E2 [E3 _]]] | [[p [c [Eo [E2 [Ex [ND [PD E]]]]]]] | [p [io [n [Eo [Ex [Ec [Ea [Ne [E [EL [_ EO]]]]]]]]]]]]].
+  - subst t'. rewrite E1. split; [|split; [assumption|]].
+    + destruct x; try assumption. intros l' [Hl|Hl]; [|apply HH; assumption]. subst l'.
+      destruct (E3 l eq_refl) as [p [_ Hp]]. apply (HL p l Hp).
+    + unfold outs_of in *. rewrite Ht'. rewrite Ht in HOa. assumption.
+  - subst t' x. assert (P : putrel (s_fs s) (s_fs s') p) by (split; [assumption|]; split; [assumption|]; eauto).
+    split; [|split].
+    + intros l Hl. destruct (HH l Hl) as [A B]. split; [assumption|]. eapply putrel_file; eauto.
+    + intros q Hq. rewrite E. rewrite eqb_if; [apply HFr; assumption|]. intro; subst q.
+      destruct (HH p (Hw p c Eo)) as [A _]. apply child_prefix in A. congruence.
+    + unfold outs_of in *. rewrite Ht'. rewrite Ht in HOa. assumption.
+  - subst x. assert (P : putrel (s_fs s) (s_fs s') (T ++ [n])).
+    { split; [congruence|]. split; [rewrite parent_child; apply HF|]. eauto. }
+    assert (Htp : is_prefix T (T ++ [n]) = true) by (apply is_prefix_spec; eauto).
+    split; [|split].
+    + intros l Hl. destruct (HH l Hl) as [A B]. split; [assumption|]. eapply putrel_file; eauto.
+    + intros q Hq. rewrite E. rewrite eqb_if; [apply HFr; assumption|]. intro; subst q. congruence.
+    + unfold outs_of in *. rewrite Ht'. rewrite Ht in HOa. rewrite EO.
+      destruct (negb io && n_is_absent (look (s_fs s) p)) eqn:Eb; [|assumption].
+      intros dst Hd Hpre. apply in_app_or in Hd. destruct Hd as [Hd|[Hd|[]]]; [apply HOa; assumption|].
+      subst dst. apply andb_true_iff in Eb. destruct Eb as [_ Eb]. apply n_is_absent_true in Eb.
+      rewrite <- HFr by assumption. assumption.
+Qed.
+
+Lemma run_keeps_Rw : forall T s0 mid s H,
+  forallb mid_op mid = true -> writes_ok s H mid = true -> Rw T s0 s H ->
+  exists H', Rw T s0 (fst (run s mid)) H'.
+Proof.
+  intros T s0. apply (run_ind_w (Rw T s0)). intros. eapply step_keeps_Rw; eauto.
+Qed.
+
+Lemma writes_ok_create : forall f0 d n0 mid, look f0 d = Dir -> look f0 (d ++ [n0]) = Absent ->
+  writes_ok (start f0) [] (Create (Some d) n0 :: mid) =
+  writes_ok {| s_fs := put_dir (d ++ [n0]) f0; s_tr := Some (new_tracker (Some (d ++ [n0]))) |} [] mid.
+Proof.
+  intros. change (writes_ok (start f0) [] (Create (Some d) n0 :: mid))
+    with (let '(s1, x) := step (start f0) (Create (Some d) n0) in
+          true && writes_ok s1 (match x with OLoc l => l :: [] | _ => [] end) mid).
+  rewrite create_some by assumption. reflexivity.
+Qed.
+
+Lemma alive_Rw : forall f0 d n0 mid, wf f0 -> look f0 d = Dir -> look f0 (d ++ [n0]) = Absent ->
+  forallb mid_op mid = true -> writes_ok (start f0) [] (Create (Some d) n0 :: mid) = true ->
+  exists H', Rw (d ++ [n0]) {| s_fs := put_dir (d ++ [n0]) f0; s_tr := Some (new_tracker (Some (d ++ [n0]))) |}
+                (alive f0 (Some d) n0 mid) H'.
+Proof.
+  intros f0 d n0 mid W HD HA Hm Hw. rewrite alive_some by assumption.
+  rewrite writes_ok_create in Hw by assumption.
+  eapply run_keeps_Rw; eauto. split; [apply create_inv; assumption|]. split; [intros l []|]. split; [reflexivity|].
+  intros dst [].
+Qed.
+
+(* ------------------------------------------------------------------ (2) scratch empty *)
+Theorem tracker_scratch_empty : forall f0 d n0 mid,
+  wf f0 -> look f0 d = Dir -> look f0 (d ++ [n0]) = Absent -> forallb mid_op mid = true ->
+  s_tr (life f0 (Some d) n0 mid) = None /\
+  snd (step (alive f0 (Some d) n0 mid) Del) = OOk /\
+  (forall q, is_prefix (d ++ [n0]) q = true -> look (s_fs (life f0 (Some d) n0 mid)) q = Absent) /\
+  (writes_ok (start f0) [] (Create (Some d) n0 :: mid) = true ->
+   forall q, look f0 q = Absent -> look (s_fs (life f0 (Some d) n0 mid)) q <> Absent ->
+             In q (requested mid)).
+Proof.
+  intros f0 d n0 mid W HD HA Hm.
+  assert (HI := alive_inv f0 d n0 mid W HD HA Hm).
+  destruct (del_spec (d ++ [n0]) _ HI) as [t [g [h [Ht [Hc [Hs [Hh [Hg _]]]]]]]].
+  rewrite life_alive, Hs. simpl. split; [reflexivity|]. split; [reflexivity|]. split.
+  - intros q Hq. rewrite Hh, Hq. reflexivity.
+  - intros Hw q Hq0 Hq1.
+    destruct (alive_Rw f0 d n0 mid W HD HA Hm Hw) as [H' [_ [_ [HFr _]]]].
+    rewrite Hh in Hq1. destruct (is_prefix (d ++ [n0]) q) eqn:Ep; [congruence|].
+    destruct (in_dec (list_eq_dec Z.eq_dec) q (t_out t)) as [Hi|Hi].
+    + rewrite alive_some in Ht by assumption.
+      destruct (run_out_sub (d ++ [n0]) mid _ Hm (create_inv f0 d n0 W HA) q) as [A|A]; [|contradiction|assumption].
+      unfold outs_of. rewrite Ht. assumption.
+    + exfalso. apply Hq1. rewrite Hg by assumption. rewrite HFr by assumption. simpl.
+      rewrite look_put_dir. apply not_prefix in Ep. rewrite eqb_if by (intro; subst; tauto). assumption.
+Qed.
